@@ -1,4 +1,5 @@
-import MsiProofs.Lemmas.Codec
+import MsiProofs.Lemmas.PoolCodec
+import MsiProofs.Lemmas.RowCodec
 import MsiModel.PkgApi
 /-
 C01 — everything written is read back after close and reopen.
@@ -15,6 +16,10 @@ open MsiModel MsiModel.Pkg
 
 /-- re-stated from `Lemmas/Codec.lean` -/
 def cell_roundtrip := @MsiProofs.Codec.cell_roundtrip
+/-- whole tables: the stream written for any ≤ 65,536 rows of storable cells reads back as those rows -/
+def rows_roundtrip := @MsiProofs.RowCodec.rows_roundtrip
+/-- the string pool: reader ∘ writer = id on every pool without a live empty string -/
+def pool_roundtrip := @MsiProofs.PoolCodec.pool_roundtrip
 
 /-- the empty string and null are one value once stored -/
 theorem storable_spec (v : Value) :
